@@ -125,7 +125,7 @@ def corpus(tier, seed):
 def run(tier, seed):
     chk = C.Check(PID, tier, seed, level="proof")
     ok, log = C.coq_build()
-    obl = C.prop_obligations(PID) if ok else dict(theorems=[], axioms={}, ok=False, log=log)
+    obl = C.prop_obligations(PID, files=["Prop_C01.v", "Prop_C01_types.v"]) if ok else dict(theorems=[], axioms={}, ok=False, log=log)
     if not ok or not obl["ok"]:
         chk.broken("theorems of Prop_C01.v do not check", (log + obl.get("log", ""))[-3000:])
         return chk.finish(obl)
